@@ -110,7 +110,12 @@ Definition reads_unwritten (body : nat -> list acc) : Prop :=
 (* goroutine_manager.go: HasError reads m.err with no lock; SetError reads and writes it under
    grTaskMutex; Done updates grCount under grTaskMutex and the package-level Count under CountMutex *)
 Definition tm_err : loc := Var "gm.err".
-Definition has_error : acc := mkAcc Rd tm_err [].
+(* hl = the mutexes HasError holds while it reads the slot: none in the code as it stands
+   (F-C13-1); ["gm.grTaskMutex"] once HasError takes the lock (hooks/fix_haserror_lock.patch) *)
+Definition has_error_with (hl : list string) : acc := mkAcc Rd tm_err hl.
+Definition hl_current : list string := [].
+Definition hl_locked : list string := ["gm.grTaskMutex"%string].
+Definition has_error : acc := has_error_with hl_current.
 Definition set_error : list acc := [mkAcc Rd tm_err ["gm.grTaskMutex"%string]; mkAcc Wr tm_err ["gm.grTaskMutex"%string]].
 Definition tm_done : list acc :=
   [mkAcc Rd (Var "gm.grCount") ["gm.grTaskMutex"%string]; mkAcc Wr (Var "gm.grCount") ["gm.grTaskMutex"%string];
@@ -118,16 +123,18 @@ Definition tm_done : list acc :=
    mkAcc Wr (Var "GoroutineManager.Count") ["gm.grTaskMutex"%string; "GoroutineManager.CountMutex"%string]].
 (* one iteration of the worker loop: if HasError break; body; on error SetError; fails k says
    whether record k raises an error.  (The break after an error only removes accesses.) *)
-Definition tm_iter (body : nat -> list acc) (fails : nat -> bool) (k : nat) : list acc :=
-  has_error :: body k ++ (if fails k then set_error else []).
+Definition tm_iter (hl : list string) (body : nat -> list acc) (fails : nat -> bool) (k : nat) : list acc :=
+  has_error_with hl :: body k ++ (if fails k then set_error else []).
 (* deferred: if !HasError { recover } ; Done *)
-Definition tm_epi (epi : nat -> list acc) (i : nat) : list acc := epi i ++ has_error :: tm_done.
-Definition tm_workers (body epi : nat -> list acc) (fails : nat -> bool) (len n : nat) : list (list acc) :=
-  range_workers (tm_iter body fails) (tm_epi epi) len n.
+Definition tm_epi (hl : list string) (epi : nat -> list acc) (i : nat) : list acc := epi i ++ has_error_with hl :: tm_done.
+Definition tm_workers (hl : list string) (body epi : nat -> list acc) (fails : nat -> bool) (len n : nat) : list (list acc) :=
+  range_workers (tm_iter hl body fails) (tm_epi hl epi) len n.
 (* after Wait the parent reads the error slot: if gm.HasError() { return gm.Err() } *)
-Definition tm_post : list acc := [has_error; has_error].
-Definition tm_exec (pre post : list acc) (body epi : nat -> list acc) (fails : nat -> bool) (len n : nat) : exec :=
-  fj_exec pre (tm_post ++ post) (tm_workers body epi fails len n).
+Definition tm_post (hl : list string) : list acc := [has_error_with hl; has_error_with hl].
+Definition tm_exec_with (hl : list string) (pre post : list acc) (body epi : nat -> list acc) (fails : nat -> bool) (len n : nat) : exec :=
+  fj_exec pre (tm_post hl ++ post) (tm_workers hl body epi fails len n).
+(* the code as it stands *)
+Definition tm_exec := tm_exec_with hl_current.
 
 (* ---- fact base extracted from the Go source (gen/C13/Sites.v) ----------------------------------- *)
 (* how an access path of a goroutine body is indexed *)
@@ -212,5 +219,6 @@ Definition site_body (s : site) (k : nat) : list acc :=
   ++ flat_map (fact_ro s) (s_facts s).
 Definition site_epi (s : site) (i : nat) : list acc :=
   flat_map (fun f => fact_epi f i) (filter (fun f => existsb (String.eqb (f_path f)) (written_paths s)) (s_facts s)).
-Definition site_exec (s : site) (pre post : list acc) (fails : nat -> bool) (len n : nat) : exec :=
-  tm_exec pre post (site_body s) (site_epi s) fails len n.
+Definition site_exec_with (hl : list string) (s : site) (pre post : list acc) (fails : nat -> bool) (len n : nat) : exec :=
+  tm_exec_with hl pre post (site_body s) (site_epi s) fails len n.
+Definition site_exec := site_exec_with hl_current.
